@@ -153,7 +153,13 @@ def run_history(family, ops, seed, want_trace=False):
             elif a == "SetTrainData":
                 n_data += 1
                 nx, ny, _ = G.data(seed + 100 * n_data, tasks=tasks)
-                model.set_train_data(nx, ny, strict=False)
+                which = op.get("which", "both")
+                if which == "targets":
+                    model.set_train_data(targets=ny, strict=False)
+                elif which == "inputs":
+                    model.set_train_data(inputs=nx, strict=False)
+                else:
+                    model.set_train_data(nx, ny, strict=False)
                 if _verif is not None:
                     _verif.emit("data_changed", step=i)
             elif a == "LoadStateDict":
@@ -215,7 +221,7 @@ def _worker(item):
         ops = h["ops"]
         fail, compared, trace = run_history(item["family"], ops, h["seed"], want_trace=h.get("trace", False))
         names = [o["a"] + ("(fpv)" if o.get("fpv") else "") + ("(attached)" if o.get("detach") is False else "") + ("(jit)" if o.get("jit") == "big" else "")
-                 + ("(eager-kernels)" if o.get("lazy") is False else "") for o in ops]
+                 + ("(eager-kernels)" if o.get("lazy") is False else "") + ("(%s)" % o["which"] if o.get("which") in ("targets", "inputs") else "") for o in ops]
         preds = [k for k, o in enumerate(ops) if o["a"] in ("Predict", "PriorPredict")]
         nontrivial = len(preds) >= 2 and any(o["a"] not in ("Predict", "PriorPredict", "Eval") for o in ops[preds[0]:preds[-1]])
         r = dict(key=[item["family"], names], ok=fail is None, nontrivial=nontrivial, n=max(compared, 1))
